@@ -93,42 +93,20 @@ def run(ctx):
     ctx.check(w is None, 'C20.complete', con, '%s (%s) reset on every path' % (name, what),
               '%s (%s) is not reset on every path through clear_config: %s survive a clear' % (name, what, what),
               cc.loc(), sites=len(g.live_nodes()), instance=name, path=describe_path(g, w) if w else None)
-  # constants: both branches
-  g2, facts = std_facts(prog, cc)
+  # constants: abstract evaluation of what the table holds at the end, for each value of the flag
   p0 = cc.params[0] if cc.params else 'clear_constants'
-  const_clear = [n for n in g2.live_nodes() if any(u(c.func) == '_CONSTANTS.clear' for c in calls_of_node(n))]
-  readd = [n for n in g2.live_nodes() if n.kind == 'stmt' and isinstance(n.ast, ast.Assign)
-           and u(n.ast.targets[0]) == "_CONSTANTS['gin.REQUIRED']" and u(n.ast.value) == 'REQUIRED']
-  t_clear = [n for n in const_clear if ('c', p0, True) in facts[n.id]]
-  t_readd = [n for n in readd if ('c', p0, True) in facts[n.id]]
-  okT = bool(t_clear) and bool(t_readd) and all(g2.reaches(c.id, r.id) for c in t_clear for r in t_readd)
-  ctx.check(okT, 'C20.complete', con, 'clear_constants=True: constants cleared, then gin.REQUIRED re-added',
-            'clear_constants=True: constants are not cleared and gin.REQUIRED re-added afterwards', cc.loc(), instance='_CONSTANTS:clear')
-  # preserving branch: either untouched, or saved-copy -> clear -> re-insert every saved item
-  f_clear = [n for n in const_clear if ('c', p0, False) in facts[n.id]]
-  if not f_clear:
-    ctx.hold('C20.complete', con, 'clear_constants=False: the constant table is left untouched', cc.loc(), instance='_CONSTANTS:keep')
-  else:
-    loops = [n for n in g2.live_nodes() if n.kind == 'for' and ('c', p0, False) in facts[n.id]]
-    ok = False
-    # a snapshot of all (name, value) pairs of the table, in either spelling
-    pair_snapshots = ('list(_CONSTANTS.items())', 'tuple(_CONSTANTS.items())', 'sorted(_CONSTANTS.items())')
-    for lp in loops:
-      it = u(lp.ast.iter)
-      if it.endswith('.items()') and isinstance(lp.ast.target, ast.Tuple) and len(lp.ast.target.elts) == 2:
-        src, forms = it[:-len('.items()')], ('_CONSTANTS.copy()', 'dict(_CONSTANTS)', 'dict(_CONSTANTS.items())')
-      elif isinstance(lp.ast.iter, ast.Name) and isinstance(lp.ast.target, ast.Tuple) and len(lp.ast.target.elts) == 2:
-        src, forms = it, pair_snapshots
-      else:
-        continue
-      saved = [n for n in g2.live_nodes() if n.kind == 'stmt' and isinstance(n.ast, ast.Assign)
-               and u(n.ast.targets[0]) == src and u(n.ast.value) in forms]
-      reins = [c for c in walk_local(lp.ast) if isinstance(c, ast.Call) and prog.resolve_call(cc, c) == 'config.constant'] + \
-              [s for s in walk_local(lp.ast) if isinstance(s, ast.Assign) and u(s.targets[0]).startswith('_CONSTANTS[')]
-      if saved and reins and all(g2.reaches(s.id, c.id) for s in saved for c in f_clear) and all(g2.reaches(c.id, lp.id) for c in f_clear):
-        ok = True
-    ctx.check(ok, 'C20.complete', con, 'clear_constants=False: constants saved before the clear and every saved item re-inserted',
-              'clear_constants=False: constants are cleared but not all restored', cc.loc(), instance='_CONSTANTS:keep')
+  for mode, inst, want, good, bad in (
+      (True, '_CONSTANTS:clear', frozenset({'REQ'}), 'clear_constants=True: the table ends up holding only gin.REQUIRED',
+       'clear_constants=True: constants are not cleared and gin.REQUIRED re-added afterwards'),
+      (False, '_CONSTANTS:keep', 'OLD', 'clear_constants=False: the table ends up holding every constant it held before',
+       'clear_constants=False: constants are cleared but not all restored')):
+    try:
+      final = constants_after(cc, p0, mode)
+    except Uninterpreted as e:
+      raise AnalysisError('clear_config handles the constant table in a form this rule cannot interpret: %s' % e)
+    okc = final == want or (want == 'OLD' and final == frozenset({'ALLOLD'}))
+    ctx.check(okc, 'C20.complete', con, good, bad + ' (the table ends up as %s)' % (sorted(final) if isinstance(final, frozenset) else final),
+              cc.loc(), instance=inst)
   # SelectorMap.clear resets both fields; copy copies both
   sm = ctx.cls('selector_map.SelectorMap')
   init = sm.methods.get('__init__')
@@ -178,3 +156,121 @@ def run(ctx):
   ctx.check(ok, 'C20.complete', 'gin/selector_map.py::SelectorMap.copy', 'the saved constants keep the stored objects themselves (value map copied shallowly)',
             'SelectorMap.copy does not keep the stored objects themselves (`%s`): constants re-inserted by clear_config() are copies, and a value that cannot be '
             'deep-copied makes clear_config() raise half-way' % [u(a.value) for a in vm], sm_copy.loc(), instance='constants-identity')
+
+
+class Uninterpreted(Exception):
+  pass
+
+
+def constants_after(cc, flag, mode):
+  """Abstract state of _CONSTANTS after clear_config(flag=mode):
+  'OLD' (untouched) or a frozenset over {'REQ', 'ALLOLD', 'VIA-constant()'}."""
+  T = '_CONSTANTS'
+  state = {'table': 'OLD'}
+  env = {}
+
+  def mentions(n, names):
+    return any(isinstance(x, ast.Name) and x.id in names for x in ast.walk(n))
+
+  def snapshot(e):
+    """('map'|'pairs', content) if e is a snapshot expression."""
+    t = u(e).replace(' ', '')
+    if t in (T + '.copy()', 'dict(%s)' % T, 'dict(%s.items())' % T, 'dict(%s.copy())' % T):
+      return ('map', 'SNAP')
+    if t in ('list(%s.items())' % T, 'tuple(%s.items())' % T, 'list(%s.copy().items())' % T, 'sorted(%s.items())' % T):
+      return ('pairs', 'SNAP')
+    if t in ("[('gin.REQUIRED',REQUIRED)]", "(('gin.REQUIRED',REQUIRED),)"):
+      return ('pairs', 'REQLIT')
+    if t == "{'gin.REQUIRED':REQUIRED}":
+      return ('map', 'REQLIT')
+    return None
+
+  def truth(test):
+    t = u(test)
+    if t == flag:
+      return mode
+    if t == 'not ' + flag:
+      return not mode
+    raise Uninterpreted('condition `%s` around the constant table' % t)
+
+  def add(item):
+    if state['table'] == 'OLD':
+      if item == 'REQ':
+        return         # already there
+      raise Uninterpreted('re-insertion into an uncleared table')
+    state['table'] = frozenset(state['table'] | {item})
+
+  def run(stmts):
+    for st in stmts:
+      literal = isinstance(st, ast.Assign) and len(st.targets) == 1 and isinstance(st.targets[0], ast.Name) and snapshot(st.value) is not None
+      if not mentions(st, {T} | set(env)) and not literal:
+        if isinstance(st, (ast.If, ast.For, ast.While, ast.With, ast.Try)):
+          for fld in ('body', 'orelse', 'finalbody'):
+            sub = getattr(st, fld, None) or []
+            if any(mentions(x, {T} | set(env)) for x in sub):
+              raise Uninterpreted('line %d' % st.lineno)
+        continue
+      if isinstance(st, ast.If):
+        run(st.body if truth(st.test) else st.orelse)
+      elif isinstance(st, ast.With) and not any(mentions(it.context_expr, {T} | set(env)) for it in st.items):
+        run(st.body)
+      elif isinstance(st, ast.Try) and not st.handlers:
+        run(st.body)
+        run(st.finalbody)
+      elif isinstance(st, ast.Assign) and len(st.targets) == 1 and isinstance(st.targets[0], ast.Name):
+        sn = snapshot(st.value)
+        if sn is None and isinstance(st.value, (ast.ListComp, ast.DictComp)) and len(st.value.generators) == 1 \
+            and u(st.value.generators[0].iter).replace(' ', '') in (T + '.items()', T + '.copy().items()') and st.value.generators[0].ifs:
+          # a filtered snapshot: some subset of the entries
+          env[st.targets[0].id] = ('pairs' if isinstance(st.value, ast.ListComp) else 'map',
+                                   'entries with `%s`' % u(st.value.generators[0].ifs[0]) if state['table'] == 'OLD' else 'LATE')
+          continue
+        if sn is None:
+          raise Uninterpreted('`%s`' % u(st))
+        kind, content = sn
+        if content == 'SNAP':
+          if state['table'] != 'OLD':
+            content = 'LATE'       # snapshot taken after the clear: empty
+          else:
+            content = 'ALLOLD'
+        else:
+          content = 'REQ'
+        env[st.targets[0].id] = (kind, content)
+      elif isinstance(st, ast.Expr) and isinstance(st.value, ast.Call) and u(st.value.func) == T + '.clear' and not st.value.args:
+        state['table'] = frozenset()
+      elif isinstance(st, ast.Assign) and len(st.targets) == 1 and u(st.targets[0]).replace(' ', '') == T + "['gin.REQUIRED']" and u(st.value) == 'REQUIRED':
+        add('REQ')
+      elif isinstance(st, ast.Expr) and isinstance(st.value, ast.Call) and u(st.value.func) == T + '.update' and len(st.value.args) == 1 \
+          and isinstance(st.value.args[0], ast.Name) and st.value.args[0].id in env:
+        c = env[st.value.args[0].id][1]
+        if c != 'LATE':
+          add(c)
+      elif isinstance(st, ast.For) and not st.orelse and isinstance(st.target, ast.Tuple) and len(st.target.elts) == 2:
+        it = st.iter
+        src = None
+        if isinstance(it, ast.Call) and isinstance(it.func, ast.Attribute) and it.func.attr == 'items' and isinstance(it.func.value, ast.Name) \
+            and it.func.value.id in env and env[it.func.value.id][0] == 'map':
+          src = env[it.func.value.id]
+        elif isinstance(it, ast.Name) and it.id in env and env[it.id][0] == 'pairs':
+          src = env[it.id]
+        elif snapshot(it) is not None and snapshot(it)[0] == 'pairs':
+          src = ('pairs', 'ALLOLD' if state['table'] == 'OLD' else 'LATE')
+        if src is None or len(st.body) != 1:
+          raise Uninterpreted('loop at line %d' % st.lineno)
+        k, v = u(st.target.elts[0]), u(st.target.elts[1])
+        b = st.body[0]
+        if isinstance(b, ast.Assign) and u(b.targets[0]).replace(' ', '') == '%s[%s]' % (T, k) and u(b.value) == v:
+          if src[1] != 'LATE':
+            add(src[1])
+        elif isinstance(b, ast.Expr) and isinstance(b.value, ast.Call) and u(b.value.func) == 'constant' and [u(a) for a in b.value.args] == [k, v]:
+          if src[1] != 'LATE':
+            add('VIA-constant()')
+        elif any(isinstance(c_, ast.Call) and u(c_.func) == 'constant' and [u(a) for a in c_.args] == [k, v] for c_ in ast.walk(b)):
+          if src[1] != 'LATE':
+            add('VIA-constant()')
+        else:
+          raise Uninterpreted('loop body at line %d' % b.lineno)
+      else:
+        raise Uninterpreted('`%s` (line %d)' % (u(st)[:60], st.lineno))
+  run(cc.node.body)
+  return state['table']
